@@ -753,19 +753,19 @@ Proof. vm_compute. reflexivity. Qed.
 
 Lemma decision_table_pinned :
   accepted_pairs =
-  [("ARRAY", "builtins.list");
-   ("BLOB", "builtins.bytes"); ("BLOB", "numpy.bytes_");
+  [("ARRAY", "builtins.list"); ("ARRAY", "props.C05._MyList");
+   ("BLOB", "builtins.bytes"); ("BLOB", "numpy.bytes_"); ("BLOB", "props.C05._MyBytes");
    ("BOOLEAN", "builtins.bool");
-   ("DATE", "datetime.date"); ("DATE", "datetime.datetime");
+   ("DATE", "datetime.date"); ("DATE", "datetime.datetime"); ("DATE", "props.C05._MyDate");
    ("DECIMAL", "decimal.Decimal");
-   ("DOUBLE", "builtins.float"); ("DOUBLE", "numpy.float64");
-   ("INTEGER", "builtins.bool"); ("INTEGER", "builtins.int");
+   ("DOUBLE", "builtins.float"); ("DOUBLE", "numpy.float64"); ("DOUBLE", "props.C05._MyFloat");
+   ("INTEGER", "builtins.bool"); ("INTEGER", "builtins.int"); ("INTEGER", "props.C05._MyInt"); ("INTEGER", "props.C05._Colour");
    ("INTERVAL", "datetime.timedelta");
    ("STRUCT", "builtins.dict"); ("STRUCT", "collections.OrderedDict");
    ("TIMESTAMP", "datetime.datetime");
    ("TIME", "datetime.time");
-   ("VARCHAR", "builtins.str"); ("VARCHAR", "numpy.str_");
-   ("JSONB", "builtins.bytes"); ("JSONB", "numpy.bytes_")]%string.
+   ("VARCHAR", "builtins.str"); ("VARCHAR", "numpy.str_"); ("VARCHAR", "props.C05._MyStr");
+   ("JSONB", "builtins.bytes"); ("JSONB", "numpy.bytes_"); ("JSONB", "props.C05._MyBytes")]%string.
 Proof. vm_compute. reflexivity. Qed.
 
 (* the decision table is what validate does on a one-column schema *)
@@ -939,4 +939,32 @@ Proof.
   assert (A := append_with_atomic (obj st o) f e x). rewrite EA in A. cbn [fst snd] in A.
   specialize (A eq_refl). subst f1. split; [reflexivity|].
   destruct st as [objs fr]. cbn [sobjs sframe] in *. rewrite HS. reflexivity.
+Qed.
+
+(* ===================================================================================== *)
+(* round 4: attributes of a column other than name / type / nullable                     *)
+
+(* a null in a non-nullable column is always named - the conditions are on the column's core only *)
+Lemma null_in_non_nullable_named : forall (s : schema) (r : record) (c : column),
+  In c s -> lookup (cname c) r = Some VNone -> cnullable c = false ->
+  extra_keys s r = [] -> first_raise r s = None ->
+  validate s r = VErrors (missing_cols s r) (notnull_cols s r) (wrong_cols s r) /\
+  In (cname c) (notnull_cols s r).
+Proof.
+  intros s r c Hin Hl Hn He Hf.
+  assert (I : In (cname c) (notnull_cols s r)).
+  { unfold notnull_cols. apply in_map. apply filter_In. split; [exact Hin|].
+    apply null_violation_iff. split; assumption. }
+  split; [|exact I]. rewrite validate_spec, He, Hf.
+  destruct (finish_cases (missing_cols s r) (notnull_cols s r) (wrong_cols s r)) as [[_ [Nn _]]|[_ F]].
+  - rewrite Nn in I. contradiction.
+  - exact F.
+Qed.
+
+Lemma null_in_non_nullable_never_ok : forall (s : schema) (r : record) (c : column),
+  In c s -> lookup (cname c) r = Some VNone -> cnullable c = false -> validate s r <> VOk.
+Proof.
+  intros s r c Hin Hl Hn H. apply validate_ok_iff_conforms in H. destruct H as [_ H].
+  destruct (H c Hin) as [v [Hv Hf]]. rewrite Hl in Hv. inversion Hv. subst v.
+  unfold value_fits in Hf. congruence.
 Qed.
